@@ -73,6 +73,19 @@ def cases(tier, seed):
                 for fk in ("silent", "err", "errsame", "stuck"):
                     cs.append({"seq": "write", "value": name, "wdata": data,
                                "unit": memseq.unit(kind, label, list(base), fault=[at, fk])})
+    # values a user of the library declares himself: locations given in any order, with gaps
+    for label, locs in (("1", [0x11, 0x10]), ("1", [0x20, 0x22, 0x23]), ("1", [0x15, 0x13]), ("206", [0x06, 0x04, 0x05]),
+                        ("207", [0x06, 0x04])):
+        for kind in ("gear", "device"):
+            base = memseq.default_image(label, rng, "rand")
+            data = [rng.getrandbits(8) for _ in locs]
+            for var in ({}, {"ignore": 1}, {"force": 1}):
+                cs.append(dict({"seq": "write", "value": "@custom", "locs": locs, "wdata": data,
+                                "unit": memseq.unit(kind, label, list(base))}, **var))
+            for at in range(1, len(locs) + 1):
+                for fk in ("silent", "err", "stuck"):
+                    cs.append({"seq": "write", "value": "@custom", "locs": locs, "wdata": data,
+                               "unit": memseq.unit(kind, label, list(base), fault=[at, fk])})
     return cs
 
 
